@@ -22,6 +22,7 @@ def showRedef (o : RedefOutcome) : String :=
   | .outOfFuel => "crash"
   | .badOracle w => s!"badOracle({w})"
   | .structPanic => "panic structof"
+  | .dupName => "dupname"
 
 def showImplRedef (ts : List String) : String :=
   match ts with
@@ -72,7 +73,7 @@ def runRedef (fl : Flags) (b : Block) : Res :=
                        trackReaching := fl.trackReaching, takeValuedNamed := fl.takeValuedNamed,
                        skipRecordsInput := fl.skipRecordsInput,
                        auto := rdres.head? == some "crash" }
-    let o := redefine ctx cgr target fout (fuelFor sc) (initSt cgr.cg [] items)
+    let o := redefine ctx cgr target fout (fuelFor sc) (initSt cgr.cg [] items) fl.dupIsError
     let c2 := if showRedef o = showImplRedef rdres then none
               else some s!"redefine_model=[{noSpace (showRedef o)}]_impl=[{noSpace (showImplRedef rdres)}]"
     -- predicates on the implementation's answer
